@@ -514,6 +514,15 @@ def rule_horizontal(chk, prog):
     got = [desc(inner.a[1][0]), desc(inner.a[1][1]), desc(v.a[1][0]), desc(v.a[1][1])]
     want = [(['target_grid'], ['1']), (['source_grid'], ['1']), (['target_grid'], ['0']), (['source_grid'], ['0'])]
     chk.check(got == want and inner.a[1][2] == S('field'), rule, f'{site}: latitude first — interp(target latitudes, source latitudes, field) — then longitude with (target, source) roles again', str(got), loc, str(want), str(got))
+    # jnp.interp needs increasing nodes: the node arrays must be non-decreasing functions of the (increasing) grid coordinate
+    # — a wrap such as `% 2π` reorders them for grids whose offset pushes a node across 0 / 2π
+    from sa import domains
+    is_axis = lambda t: t.k == 'sub' and t.a[0].k == 'attr' and t.a[0].a[1] == 'nodal_axes'
+    sgn = domains.Sign(assume=[(is_axis, 'T')])
+    for label, xp in (('latitude', inner.a[1][1]), ('longitude', v.a[1][1])):
+      m = domains.Mono(is_axis, sgn).of(xp)
+      chk.check(m == 'I', rule, f'{site}: the source {label} nodes handed to jnp.interp are an increasing function of the grid coordinate (sorted for every longitude offset)',
+                f'monotonicity class {m}: {sym.show(xp, maxdepth=4)[:100]}', loc, 'I (increasing)', m)
   wraps = [e for e in ev.events if e[0] == 'wrap']
   sigs = [dict(e[1][2]).get('signature') for e in wraps if e[1][0] == 'jax.numpy.vectorize']
   sigs = [s_.a[0] for s_ in sigs if s_ is not None and s_.k == 'const']
